@@ -42,8 +42,7 @@ Section Insert.
       len (spec_insert hdr bs (name, v)) <= len bs + 32768.
   Proof.
     pose proof (spec_read_inv _ _ _ _ _ _ Hread) as (Eh & Ek & El & H1 & H2 & H3 & H4 & H5 & Ht & Hp).
-    pose proof (spec_header_inv _ _ _ Eh) as (hh & Hm & _ & Elen & _).
-    pose proof (mapped_header_len _ _ Hm) as (_ & _ & Hb & _). rewrite Elen in Hb.
+    pose proof (spec_header_inv _ _ _ Eh) as (_ & _ & Hb & _ & Hfit & _).
     pose proof (rec_size_bounds _ Hname) as (R1 & R2 & R3).
     pose proof (first_off_val hdr) as Efo.
     rewrite spec_insert_eq. cbv zeta. rewrite <- El.
